@@ -359,6 +359,10 @@ fn sni_of(hello: &[u8]) -> String {
 }
 
 thread_local! { static AFTER: std::cell::RefCell<Vec<(String, String, bool)>> = const { std::cell::RefCell::new(Vec::new()) }; }
+// re-sending a prepared request: outcome, number of connections and lifecycle tokens of the first send()
+type SendOutcome = Result<(u16, String), String>;
+thread_local! { static RESEND: std::cell::Cell<bool> = const { std::cell::Cell::new(false) }; }
+thread_local! { static FIRST: std::cell::RefCell<Option<(SendOutcome, usize, Vec<Value>)>> = const { std::cell::RefCell::new(None) }; }
 
 pub fn run(sc: &Value) -> Vec<String> {
     let req = &sc["req"];
@@ -468,6 +472,8 @@ pub fn run(sc: &Value) -> Vec<String> {
     let world: Shared = Arc::new(Mutex::new(world));
     install_dialer(&world);
     let _ = life_take();
+    RESEND.with(|r| r.set(gb(sc, "resend")));
+    FIRST.with(|f| *f.borrow_mut() = None);
 
     // ---- build the request through the public API
     let url_rec = &req["url"];
@@ -542,6 +548,33 @@ pub fn run(sc: &Value) -> Vec<String> {
                 let name = http::header::HeaderName::from_bytes(n.as_bytes()).unwrap();
                 rb = if *append { rb.header_append(name, v.as_str()) } else { rb.header(name, v.as_str()) };
             }
+            fn outcome(sent: attohttpc::Result<attohttpc::Response>) -> SendOutcome {
+                life_push(if sent.is_ok() { "ok" } else { "err" }, 0);
+                let mut rp = sent.map_err(|e| {
+                    if let attohttpc::ErrorKind::ConnectError { body, .. } = e.kind() {
+                        let pat: Vec<u8> = (0..body.len()).map(|i| b"PROXYBODY"[i % 9]).collect();
+                        format!("{}|{}|{}", err_kind(&e), body.len(), lcp(body, &pat))
+                    } else {
+                        err_kind(&e)
+                    }
+                })?;
+                let out = (rp.status().as_u16(), rp.url().as_str().to_string());
+                // the caller reads some of the body (or none) and drops the response
+                if out.1.len() % 2 == 0 {
+                    let mut b = [0u8; 1];
+                    let _ = std::io::Read::read(&mut rp, &mut b);
+                }
+                drop(rp);
+                Ok(out)
+            }
+            if RESEND.with(|r| r.get()) {
+                // prepare once, send twice: the second send() must be the same request again
+                let mut p = rb.try_prepare().map_err(|e| err_kind(&e))?;
+                let first = outcome(p.send());
+                life_push("end", 0);
+                FIRST.with(|f| *f.borrow_mut() = Some((first, dial_count(), life_take())));
+                return outcome(p.send());
+            }
             let sent = rb.send();
             life_push(if sent.is_ok() { "ok" } else { "err" }, 0);
             let mut rp = sent.map_err(|e| {
@@ -614,9 +647,18 @@ pub fn run(sc: &Value) -> Vec<String> {
         "before": lower_ops(ga(req, "headers")), "after": lower_ops(ga(req, "headers_after")),
         "compress": settings.get("compress").and_then(|x| x.as_bool()).unwrap_or(true),
         "session": req.get("session_headers").is_some()});
-    out.push(json!({"ev":"reset","id":gs(sc,"id"),"req":req_ev,"settings":settings,"nodes":nodes,"bodyLen":expected_body.len(),"connect":connect_policy,"defaults":defaults}).to_string());
+    let reset_ev = json!({"ev":"reset","id":gs(sc,"id"),"req":req_ev,"settings":settings,"nodes":nodes,"bodyLen":expected_body.len(),"connect":connect_policy,"defaults":defaults});
+    out.push(reset_ev.to_string());
+    let first = FIRST.with(|f| f.borrow_mut().take());
+    let split = first.as_ref().map(|f| f.1).unwrap_or(usize::MAX);
     let ph = phases.lock().unwrap();
+    let mut first_closed = false;
     for (ci, c) in w.conns.iter().enumerate() {
+        if ci == split && !first_closed {
+            // the first send() is over: its outcome, its connections' life, then the second send() starts afresh
+            close_first(&mut out, &first, &reset_ev);
+            first_closed = true;
+        }
         if c.dial.is_none() {
             continue;
         }
@@ -696,7 +738,7 @@ pub fn run(sc: &Value) -> Vec<String> {
             }
         };
         let clv: Vec<i64> = hv("content-length").iter().map(|s| s.parse::<i64>().unwrap_or(-1)).collect();
-        out.push(json!({"ev":"hop","i":ci + 1,"dial":{"sch":dial.0,"host":dial.1.to_ascii_lowercase(),"port":dial.2},"connect":connect,
+        out.push(json!({"ev":"hop","i":if ci >= split && split != usize::MAX { ci + 1 - split } else { ci + 1 },"dial":{"sch":dial.0,"host":dial.1.to_ascii_lowercase(),"port":dial.2},"connect":connect,
             "req":{"parsed":pr.ok,"method":pr.method,"form": if reqbytes.is_empty() {"none"} else if pr.target.contains("://") {"absolute"} else if pr.target.starts_with('/') {"origin"} else {"other"},
                 "url":turl,"hosts":hv("host"),"conn":hv("connection").iter().map(|s| s.to_ascii_lowercase()).collect::<Vec<_>>(),"clv":clv,
                 "te":hv("transfer-encoding").iter().map(|s| s.to_ascii_lowercase()).collect::<Vec<_>>(),
@@ -712,6 +754,10 @@ pub fn run(sc: &Value) -> Vec<String> {
                 "auth":hv("authorization"),"proxyAuth":hv("proxy-authorization").len(),"ctype":hv("content-type"),"nchunks":pr.chunks.len(),
                 "leaks":marker_count(reqbytes, &secrets)},
             "written":c.written.len()}).to_string());
+    }
+    if split != usize::MAX && !first_closed {
+        // (the second send() dialled nothing)
+        close_first(&mut out, &first, &reset_ev);
     }
     let mut done = json!({"ev":"done","res":"err","kind":"","status":0,"url":{"sch":"-","host":"-","port":0,"path":[],"q":"-"},"cbodyLen":0,"cbodyLcp":0,"nconn":w.conns.iter().filter(|c| c.dial.is_some()).count()});
     match result {
@@ -736,9 +782,51 @@ pub fn run(sc: &Value) -> Vec<String> {
     out.push(done.to_string());
     // a panic leaves the call without a return token: the lifecycle is only judged for calls that returned
     if done["res"] != json!("panic") && life.iter().any(|t| t[0] == "ok" || t[0] == "err") {
+        // connection numbers of a second send() start again at 1
+        let life: Vec<Value> = if split != usize::MAX {
+            life.iter().map(|t| json!([t[0], if t[1].as_u64().unwrap_or(0) as usize > split { t[1].as_u64().unwrap() as usize - split } else { t[1].as_u64().unwrap_or(0) as usize }])).collect()
+        } else {
+            life
+        };
         out.push(json!({"ev":"life","toks":life}).to_string());
     }
     out
+}
+
+fn done_event(result: &Result<Result<(u16, String), String>, String>, nconn: usize) -> Value {
+    let mut done = json!({"ev":"done","res":"err","kind":"","status":0,"url":{"sch":"-","host":"-","port":0,"path":[],"q":"-"},"cbodyLen":0,"cbodyLcp":0,"nconn":nconn});
+    match result {
+        Ok(Ok((st, u))) => {
+            done["res"] = json!("ok");
+            done["status"] = json!(st);
+            done["url"] = parse_abs(u).unwrap_or(json!({"sch":"?","host":"?","port":0,"path":[],"q":"-"}));
+        }
+        Ok(Err(k)) => {
+            let parts: Vec<&str> = k.split('|').collect();
+            done["kind"] = json!(parts[0]);
+            if parts.len() == 3 {
+                done["cbodyLen"] = json!(parts[1].parse::<usize>().unwrap());
+                done["cbodyLcp"] = json!(parts[2].parse::<usize>().unwrap());
+            }
+        }
+        Err(p) => {
+            done["res"] = json!("panic");
+            done["kind"] = json!(p);
+        }
+    }
+    done
+}
+
+/// The first of two send() calls on one prepared request is over: its `done` and `life` events, then a fresh `reset`.
+fn close_first(out: &mut Vec<String>, first: &Option<(Result<(u16, String), String>, usize, Vec<Value>)>, reset_ev: &Value) {
+    if let Some((res, n, life)) = first {
+        out.push(done_event(&Ok(res.clone()), *n).to_string());
+        out.push(json!({"ev":"life","toks":life}).to_string());
+        let mut r2 = reset_ev.clone();
+        r2["id"] = json!(format!("{}#2", reset_ev["id"].as_str().unwrap_or("?")));
+        r2["second"] = json!(true);
+        out.push(r2.to_string());
+    }
 }
 
 // ------------------------------------------------------------------ C07: randomized single requests
